@@ -13,6 +13,9 @@ pub struct Case {
     pub b: NumSpec,
     /// 0: independent variable lists; 1: b re-built on a's list (shared Arc); 2: a re-built on b's
     pub storage: u8,
+    /// when present this is a LARGE-layout case: `size` names, b's list derived from a's by `relation`
+    #[serde(default)]
+    pub large: Option<(usize, u8)>,
 }
 
 const TOL: f64 = 1e-12;
@@ -69,17 +72,183 @@ fn cases(tier: Tier) -> Vec<Case> {
         let lb = operands(nuni, vb, 1, eq_mode);
         for a in la.iter() {
             for b in lb.iter() {
-                out.push(Case { nuni, a: a.clone(), b: b.clone(), storage: 0 });
+                out.push(Case { nuni, a: a.clone(), b: b.clone(), storage: 0, large: None });
                 if subset(&b.names, &a.names) {
-                    out.push(Case { nuni, a: a.clone(), b: b.clone(), storage: 1 });
+                    out.push(Case { nuni, a: a.clone(), b: b.clone(), storage: 1, large: None });
                 }
                 if subset(&a.names, &b.names) {
-                    out.push(Case { nuni, a: a.clone(), b: b.clone(), storage: 2 });
+                    out.push(Case { nuni, a: a.clone(), b: b.clone(), storage: 2, large: None });
                 }
             }
         }
     }
+    // a menu of LARGE layouts (sizes around powers of two), each relation of b's list to a's
+    for size in [7usize, 8, 9, 15, 16, 17, 33] {
+        for relation in 0..7u8 {
+            out.push(Case { nuni: 0, a: NumSpec::constant(1.5), b: NumSpec::constant(-2.5), storage: 0, large: Some((size, relation)) });
+        }
+    }
     out
+}
+
+/// b's names derived from a's (0..size): 0 same order, 1 rotated by 3, 2 reversed, 3 every other name (subset),
+/// 4 superset (all + 2 extras, interleaved), 5 disjoint, 6 overlapping half shifted
+fn large_lists(size: usize, relation: u8) -> (Vec<usize>, Vec<usize>) {
+    let a: Vec<usize> = (0..size).collect();
+    let b: Vec<usize> = match relation {
+        0 => a.clone(),
+        1 => (0..size).map(|i| (i + 3) % size).collect(),
+        2 => (0..size).rev().collect(),
+        3 => (0..size).filter(|i| i % 2 == 1).collect(),
+        4 => {
+            let mut v: Vec<usize> = vec![size];
+            v.extend((0..size).map(|i| (i * 2 + 1) % size).collect::<std::collections::BTreeSet<usize>>());
+            v.extend((0..size).filter(|i| (i * 2 + 1) % size != *i && !(0..size).map(|k| (k * 2 + 1) % size).any(|x| x == *i)));
+            v.push(size + 1);
+            v
+        }
+        5 => (size..2 * size).collect(),
+        _ => (size / 2..size / 2 + size).rev().collect(),
+    };
+    (a, b)
+}
+
+fn check_large(size: usize, relation: u8, case: &Case, idx: u64, acc: &mut Acc) {
+    use crate::dynref::DR;
+    use rateslib::dual::{Gradient1, Gradient2};
+    let (la, lb) = large_lists(size, relation);
+    let nv = 2 * size + 2;
+    let uni: Vec<String> = (0..nv).map(|i| format!("n{}", i)).collect();
+    let gv = |name: usize, side: usize| gen_val(name * 3 + side * 5 + 1) + 0.03125 * name as f64;
+    let hv = |i: usize, j: usize, side: usize| if i == j || i + 1 == j || j + 1 == i || (i.min(j) == 0 && i.max(j) % 5 == 4) { 0.25 * gen_val(i + j + side) } else { 0.0 };
+    let mk_ref = |l: &Vec<usize>, v: f64, side: usize, second: bool| -> DR {
+        let mut d = DR::zero(nv);
+        d.v = v;
+        for n in l {
+            d.g[*n] = gv(*n, side);
+        }
+        if second {
+            for a in l {
+                for b in l {
+                    d.h[a * nv + b] = hv(*a, *b, side);
+                }
+            }
+        }
+        d
+    };
+    let names = |l: &Vec<usize>| -> Vec<String> { l.iter().map(|i| uni[*i].clone()).collect() };
+    let cj = || serde_json::to_value(case).unwrap();
+    // first order
+    {
+        let a = Dual::try_new(1.5, names(&la), la.iter().map(|n| gv(*n, 0)).collect()).unwrap();
+        let b = Dual::try_new(-2.5, names(&lb), lb.iter().map(|n| gv(*n, 1)).collect()).unwrap();
+        let cls = class_name(&a.vars_cmp(b.vars()));
+        acc.bump(&format!("large/Dual/{}", cls));
+        acc.nontrivial();
+        let (ra, rb) = (mk_ref(&la, 1.5, 0, false), mk_ref(&lb, -2.5, 1, false));
+        let wants: [(&str, DR); 4] = [("add", ra.add(&rb, 1.0)), ("sub", ra.add(&rb, -1.0)), ("mul", ra.mul(&rb)), ("div", ra.mul(&rb.recip()))];
+        for (op, w) in wants.iter() {
+            for own in [false, true] {
+                acc.eval();
+                let got: Dual = match (*op, own) {
+                    ("add", false) => &a + &b,
+                    ("add", true) => a.clone() + b.clone(),
+                    ("sub", false) => &a - &b,
+                    ("sub", true) => a.clone() - b.clone(),
+                    ("mul", false) => &a * &b,
+                    ("mul", true) => a.clone() * b.clone(),
+                    (_, false) => &a / &b,
+                    (_, true) => a.clone() / b.clone(),
+                };
+                let g = got.gradient1(uni.clone());
+                let mut bad = !close(got.real(), w.v, 1e-12) || got.dual().len() != got.vars().len();
+                for i in 0..nv {
+                    if !close_scaled(g[i], w.g[i], 1e-12, w.g[i].abs().max(1.0)) {
+                        bad = true;
+                    }
+                }
+                let mut want_names: Vec<usize> = la.clone();
+                want_names.extend(lb.iter().filter(|x| !la.contains(x)));
+                let got_set: std::collections::BTreeSet<String> = got.vars().iter().cloned().collect();
+                if got_set != want_names.iter().map(|i| uni[*i].clone()).collect() || got.vars().len() != got_set.len() {
+                    bad = true;
+                }
+                if bad {
+                    acc.violate(&format!("large/Dual/{}/{}", op, cls), idx, cj(), json!({"size": size, "relation": relation, "want_value": w.v}), json!(format!("{:?}", got)));
+                }
+            }
+        }
+        acc.evals_add(2);
+        let eq_want = la.iter().all(|n| lb.contains(n) && gv(*n, 0) == gv(*n, 1)) && lb.iter().all(|n| la.contains(n)) && false;
+        if (a == b) != eq_want || (b == a) != eq_want {
+            acc.violate(&format!("large/Dual/eq/{}", cls), idx, cj(), json!(eq_want), json!(a == b));
+        }
+        // equal by name, different order / padded with zero derivatives
+        let b_same = Dual::try_new(1.5, names(&lb), lb.iter().map(|n| if la.contains(n) { gv(*n, 0) } else { 0.0 }).collect()).unwrap();
+        let covers = la.iter().all(|n| lb.contains(n));
+        if covers && !(a == b_same && b_same == a) {
+            acc.violate(&format!("large/Dual/eq-by-name/{}", cls), idx, cj(), json!(true), json!(false));
+        }
+    }
+    // second order
+    {
+        let hflat = |l: &Vec<usize>, side: usize| -> Vec<f64> {
+            let mut h = vec![];
+            for a in l {
+                for b in l {
+                    h.push(0.5 * hv(*a, *b, side));
+                }
+            }
+            h
+        };
+        let a = Dual2::try_new(1.5, names(&la), la.iter().map(|n| gv(*n, 0)).collect(), hflat(&la, 0)).unwrap();
+        let b = Dual2::try_new(-2.5, names(&lb), lb.iter().map(|n| gv(*n, 1)).collect(), hflat(&lb, 1)).unwrap();
+        let cls = class_name(&a.vars_cmp(b.vars()));
+        let (ra, rb) = (mk_ref(&la, 1.5, 0, true), mk_ref(&lb, -2.5, 1, true));
+        let wants: [(&str, DR); 4] = [("add", ra.add(&rb, 1.0)), ("sub", ra.add(&rb, -1.0)), ("mul", ra.mul(&rb)), ("div", ra.mul(&rb.recip()))];
+        for (op, w) in wants.iter() {
+            acc.eval();
+            let got: Dual2 = match *op {
+                "add" => &a + &b,
+                "sub" => &a - &b,
+                "mul" => &a * &b,
+                _ => &a / &b,
+            };
+            let g = got.gradient1(uni.clone());
+            let h = got.gradient2(uni.clone());
+            let n = got.vars().len();
+            let mut bad = !close(got.real(), w.v, 1e-12) || got.dual().len() != n || got.dual2().shape() != [n, n];
+            let hs = w.h.iter().fold(1.0_f64, |m, x| m.max(x.abs()));
+            for i in 0..nv {
+                if !close_scaled(g[i], w.g[i], 1e-12, w.g[i].abs().max(1.0)) {
+                    bad = true;
+                }
+                for j in 0..nv {
+                    if !close_scaled(h[[i, j]], w.h[i * nv + j], 1e-12, hs) {
+                        bad = true;
+                    }
+                }
+            }
+            if bad {
+                acc.violate(&format!("large/Dual2/{}/{}", op, cls), idx, cj(), json!({"size": size, "relation": relation, "want_value": w.v}), json!(format!("{:?}", got.real())));
+            }
+        }
+        let b_same = Dual2::try_new(1.5, names(&lb), lb.iter().map(|n| if la.contains(n) { gv(*n, 0) } else { 0.0 }).collect(), {
+            let mut h = vec![];
+            for x in lb.iter() {
+                for y in lb.iter() {
+                    h.push(if la.contains(x) && la.contains(y) { 0.5 * hv(*x, *y, 0) } else { 0.0 });
+                }
+            }
+            h
+        })
+        .unwrap();
+        let covers = la.iter().all(|n| lb.contains(n));
+        if covers && !(a == b_same && b_same == a) {
+            acc.violate(&format!("large/Dual2/eq-by-name/{}", cls), idx, cj(), json!(true), json!(false));
+        }
+    }
+    acc.sample(cj);
 }
 
 fn class_name(c: &VarsRelationship) -> &'static str {
@@ -116,6 +285,10 @@ fn names_ok(result_mask: u8, want_mask: u8) -> bool {
 }
 
 pub fn check(case: &Case, idx: u64, acc: &mut Acc) {
+    if let Some((size, relation)) = case.large {
+        check_large(size, relation, case, idx, acc);
+        return;
+    }
     let u = universe(case.nuni);
     let cj = || serde_json::to_value(case).unwrap();
     let (sa, sb) = (&case.a, &case.b);
@@ -329,7 +502,9 @@ pub fn run(ctx: &Ctx, replay_file: Option<String>) -> ! {
          are a function of the NAME (never of the position), so all list permutations of the same number are covered. \
          Non-trivial: pairs whose vars_cmp class (observed through the public vars_cmp) is not ArcEquivalent; the run \
          refuses to report if any of the five classes or the 'equal pair' class is empty. Oracle: by-name RefDual \
-         result, union of names each once, matching shapes, == iff equal by name with missing == 0.",
+         result, union of names each once, matching shapes, == iff equal by name with missing == 0. In addition a \
+         menu of LARGE layouts (7, 8, 9, 15, 16, 17, 33 names) x 7 relations of the second list to the first (same, \
+         rotated, reversed, every other name, superset, disjoint, overlapping) against a dense by-name reference.",
         json!({"names": ctx.tier.pick(3, 4), "cases": cs.len(), "value_pairs": [[1.5, -2.5], [1.5, 1.5]]}),
     )
     .assume("RefDual reference model (harness/src/refdual.rs)")
